@@ -104,9 +104,24 @@ def episode(draw, index):
 
 
 @st.composite
+def simultaneous_episode(draw, index):
+    """two runners call accept() at the same moment; line-level delays inside the guard module vary the interleaving"""
+    return {"runner": "service", "accept_delay": 0.01, "payloads": [], "drivers": [], "linger_ms": 20, "population": "none", "naccept": 1,
+            "heartbeats": [], "simultaneous": {"run_ms": draw(st.sampled_from([20, 60]))},
+            "trigger": {"mode": "simultaneous-accept", "at_ms": 0}}
+
+
+@st.composite
 def history(draw):
     n = draw(st.integers(1, 5))
-    return {"episodes": [draw(episode(i)) for i in range(n)], "switchinterval": draw(switchinterval), "bound_s": BOUND}
+    eps = []
+    sim = draw(st.integers(0, 3)) == 0
+    for i in range(n):
+        eps.append(draw(simultaneous_episode(i)) if sim and draw(st.booleans()) else draw(episode(i)))
+    h = {"episodes": eps, "switchinterval": draw(switchinterval), "bound_s": BOUND}
+    if any(e.get("simultaneous") for e in eps):
+        h["trace_delay"] = {"files": ["runners/guard.py"], "delays_ms": [draw(st.sampled_from([0, 1, 3])), draw(st.sampled_from([0, 1, 3])), draw(st.sampled_from([0, 2, 5]))]}
+    return h
 
 
 def judge(sc, obs) -> Result:
@@ -129,12 +144,31 @@ def judge(sc, obs) -> Result:
         ops = [o for o in obs["ops"] if o.get("ep") == k]
         tag = f"episode {k} ({mode} at {ep['trigger']['at_ms']} ms, population {ep['population']}, accept_delay {ep['accept_delay']})"
         exc = out.get("exc") or {}
+        if mode == "simultaneous-accept":
+            h = out.get("helper", {})
+            main_rejected = out["how"] == "raised" and exc.get("type") == "RuntimeError"
+            helper_rejected = h.get("how") == "raised" and h.get("type") == "RuntimeError"
+            desc = f"main accept {out['how']} {exc.get('type', '')}, helper accept {h.get('how')} {h.get('type', '')}, winner {out.get('winner')}"
+            if out.get("both_running"):
+                res.fail("two-runners-accepting", f"{tag}: both runners report running at the same time ({desc})")
+            elif main_rejected == helper_rejected:
+                res.fail("concurrent-accept-not-rejected", f"{tag}: exactly one of two simultaneous accepts must raise RuntimeError ({desc})")
+            else:
+                loser = out if main_rejected else h
+                if loser["t_end"] - loser["t_begin"] > 1.5e9:
+                    res.fail("concurrent-accept-slow", f"{tag}: the rejected accept took {(loser['t_end'] - loser['t_begin']) / 1e6:.0f} ms ({desc})")
+                winner = h if main_rejected else out
+                if winner.get("how") != "returned":
+                    res.fail("accept-raised-on-shutdown", f"{tag}: the winning accept did not return normally after shutdown ({desc})")
+            if out.get("shutdown_errors"):
+                res.fail("shutdown-raised", f"{tag}: {out['shutdown_errors']}")
+            continue
         if out["how"] == "raised" and exc.get("type") == "RuntimeError" and "exclusive" in exc.get("repr", ""):
             res.fail("restart-impossible", f"{tag}: accept() of a new runner raised {exc['repr']} after the previous episode ended ({sc['episodes'][k - 1]['trigger']['mode'] if k else 'n/a'})")
             return res
         seen = [e for e in obs["log"] if e[3] == "running-seen" and len(e) > 5 and e[5] == k]
         skipped = [o for o in ops if o.get("skipped")]
-        if not seen and not skipped:
+        if not seen and not skipped and mode != "simultaneous-accept":
             res.fail("never-running", f"{tag}: the runner never reported running")
         # ---- concurrent accepts
         ends = [o["t_call"] for o in ops if o.get("op") in ("shutdown", "sigint")]
